@@ -143,6 +143,20 @@ Theorem C11_identical_requests_hit : forall fx H w l1 a l2 b r c,
 Proof. exact identical_requests_hit. Qed.
 Print Assumptions C11_identical_requests_hit.
 
+(** Stored entries are stable (A … A): in every history, what the first allowed look-up of a key has
+    stored is what every later look-up of that key receives (re-validated under the instance's own
+    policy where repaired) — after ANY sequence of other look-ups and stores in between, of any
+    instances and kinds.  The correspondence run checks the real mechanisms against this on the real
+    in-memory backend, which keeps the slices it is given. *)
+Theorem C11_stored_entry_is_returned : forall fx H w c a l2 b k r,
+  cache_key fx H (st_ho a) (st_vo a) (st_inst a) (st_req a) = Some k -> lookup k c = None ->
+  fst (exec_fresh w (st_inst a) (st_req a)) = OAllow r ->
+  cache_key fx H (st_ho b) (st_vo b) (st_inst b) (st_req b) = Some k ->
+  nth_error (run_cached fx H w c (a :: l2 ++ [b])) (S (length l2)) =
+  Some {| sr_key := Some k; sr_hit := true; sr_calls := 0; sr_out := recheck fx (st_inst b) r |}.
+Proof. exact stored_entry_is_returned. Qed.
+Print Assumptions C11_stored_entry_is_returned.
+
 (** the recorded findings, each with a concrete two-request history on which
     the cache changes the decision, for every SHA-256 *)
 Theorem C11_F2_refuted :
